@@ -138,25 +138,49 @@ def report(ctx, key, what, replay_src, payload):
         ctx.prop = saved
 
 
+def chunks_of(rows, max_lines=6000):
+    """Split a trace at scenario boundaries (one JVM validates a few hundred scenarios)."""
+    res, cur = [], []
+    for x in rows:
+        if x.get("ev") == "Chain" and len(cur) >= max_lines:
+            res.append(cur)
+            cur = []
+        cur.append(x)
+    if cur:
+        res.append(cur)
+    return res
+
+
 def validate(ctx, trace, label):
-    ok, info = vlib.trace_validate(ctx, "Trace_FastSync.tla", "Trace_FastSync.cfg", trace, timeout=3000)
     rows = vlib.read_ndjson(trace)
-    if not ok:
-        broken = info.get("broken")
-        if not broken:
-            raise vlib.CheckError("%s trace rejected without a broken clause: %s" % (label, json.dumps(info)[:1500]))
-        seen = {}
-        for line, clause in broken:
-            start, end = scenario_of(rows, line)
-            key = "%s:FastSync%s:%s" % (PREFIX.get(clause, PID), clause, signature(rows, start, end, line, clause))
-            seen.setdefault(key, []).append((line, clause, start, end))
-        for key in sorted(seen)[:12]:
-            line, clause, start, end = seen[key][0]
-            ex = ctx.path("replay_%s_%d.ndjson" % (clause, line))
-            vlib.write_ndjson(ex, rows[start:end])
-            report(ctx, key, describe(rows, start, end, line, clause) + " (%d scenario(s) with this signature; %d signatures in this run)" % (len(seen[key]), len(seen)),
-                   ex, {"scenario": rows[start].get("scenario"), "class": rows[start].get("class"), "line": line - start})
-    return ok, info, rows
+    all_ok, drift, seen = True, 0, {}
+    offset = 0
+    for ci, chunk in enumerate(chunks_of(rows)):
+        path = trace if len(chunk) == len(rows) else ctx.path("chunks", "%s_%d.ndjson" % (label, ci))
+        if path != trace:
+            vlib.write_ndjson(path, chunk)
+        ok, info = vlib.trace_validate(ctx, "Trace_FastSync.tla", "Trace_FastSync.cfg", path, timeout=3000)
+        drift += info.get("drift") or 0
+        if not ok:
+            all_ok = False
+            broken = info.get("broken")
+            if not broken:
+                raise vlib.CheckError("%s trace rejected without a broken clause: %s" % (label, json.dumps(info)[:1500]))
+            for line, clause in broken:
+                line += offset
+                start, end = scenario_of(rows, line)
+                key = "%s:FastSync%s:%s" % (PREFIX.get(clause, PID), clause, signature(rows, start, end, line, clause))
+                seen.setdefault(key, []).append((line, clause, start, end))
+        offset += len(chunk)
+    for key in sorted(seen)[:12]:
+        line, clause, start, end = seen[key][0]
+        ex = ctx.path("replay_%s_%d.ndjson" % (clause, line))
+        vlib.write_ndjson(ex, rows[start:end])
+        report(ctx, key, describe(rows, start, end, line, clause) + " (%d scenario(s) with this signature; %d signatures in this run)" % (len(seen[key]), len(seen)),
+               ex, {"scenario": rows[start].get("scenario"), "class": rows[start].get("class"), "line": line - start})
+    if len(seen) > 12:
+        ctx.notes.append("%s: %d further violation signatures not listed: %s" % (label, len(seen) - 12, sorted(seen)[12:40]))
+    return all_ok, {"drift": drift}, rows
 
 
 def stats_of(rows):
